@@ -219,6 +219,31 @@ pub fn flip_noop_options(case: &Case) -> Case {
         if !formish {
             c.cfg.fold = !c.cfg.fold;
         }
+        // bystanders: unsigned headers whose names mean something elsewhere in AWS's protocols or to proxies, added
+        // where the request has no header of that name (at the front for every second request, else at the end)
+        let bystanders: [(&str, &[u8]); 9] = [
+            ("X-Amz-Content-Sha256", b"e3b0c44298fc1c149afbf4c8996fb92427ae41e4649b934ca495991b7852b855"),
+            ("X-Amz-Expires", b"604800"),
+            ("Expires", b"Thu, 01 Jan 2026 00:00:00 GMT"),
+            ("Content-Length", b"0"),
+            ("Transfer-Encoding", b"chunked"),
+            ("X-Forwarded-Proto", b"http"),
+            ("X-Forwarded-Host", b"other.example.com"),
+            ("X-Forwarded-Port", b"80"),
+            ("X-HTTP-Method-Override", b"DELETE"),
+        ];
+        let front = crate::core::h64(&(&case.wire.uri, case.wire.headers.len(), case.wire.body.len())) % 2 == 0;
+        let mut pos = 0;
+        for (n, v) in bystanders {
+            if !c.wire.headers.iter().any(|(hn, _)| hn.eq_ignore_ascii_case(n)) {
+                if front {
+                    c.wire.headers.insert(pos, (n.to_string(), v.to_vec()));
+                    pos += 1;
+                } else {
+                    c.wire.headers.push((n.to_string(), v.to_vec()));
+                }
+            }
+        }
     }
     c
 }
